@@ -15,7 +15,7 @@ import (
 
 type libIntrinsic func(fr *frame, args []value) (value, bool)
 
-var intrinsics map[string]libIntrinsic
+var intrinsics = map[string]libIntrinsic{}
 
 func anySym(args ...value) bool {
 	for _, a := range args {
@@ -27,7 +27,7 @@ func anySym(args ...value) bool {
 }
 
 func init() {
-	intrinsics = map[string]libIntrinsic{
+	base := map[string]libIntrinsic{
 		"strings.HasPrefix":  inStrPred("str.prefixof", true),
 		"strings.HasSuffix":  inStrPred("str.suffixof", true),
 		"strings.Contains":   inStrPred("str.contains", false),
@@ -125,6 +125,9 @@ func init() {
 		"runtime.Gosched":                func(fr *frame, a []value) (value, bool) { fr.m.schedPoint("gosched"); return nil, true },
 		"runtime.SetFinalizer":           inNop,
 		"runtime.KeepAlive":              inNop,
+	}
+	for k, v := range base {
+		intrinsics[k] = v
 	}
 	addAtomics()
 }
